@@ -217,7 +217,7 @@ class MCSimulationFixedTimes(MCSimulation, SimulationFixedTimes):
         for k, sliceStates in enumerate(values):
             if sliceStates.shape[0]:
                 definitive_values[k] = sliceStates[-1]
-        return definitive_values
+        return np.cumsum(definitive_values)  # running sum of the jumps at each date
 
     def simulate_jumps(self):
         mc = self.simulate_markov_chain()
@@ -257,7 +257,13 @@ class MCSimulationWithJumpTimes(MCSimulation, SimulationWithJumpTimes):
 
     def simulate_jumps(self):
         mc = self.simulate_markov_chain()
-        jump_values = np.concatenate(mc.values).ravel().astype(float)
+        # the values of each slice start from 0: carry the running sum from one slice to the next
+        offset, slices = 0.0, []
+        for slice_values in mc.values:
+            slices.append(np.asarray(slice_values, dtype=float) + offset)
+            if len(slice_values):
+                offset = slices[-1][-1]
+        jump_values = np.concatenate(slices).ravel().astype(float)
         jump_times = mc.times
         return jump_times, jump_values
 
